@@ -37,30 +37,30 @@ theorem lerp_elab : nodesOf call_lerp = some nodes_lerp := by decide +kernel
 
 /-- abs: `-x` for negative `x`, `x` otherwise (for `x = -2^31` the documented formula overflows) -/
 theorem abs_spec (x : I32) : resultOf nodes_abs (env1 "in_x" x) = if x.slt 0 then -x else x := by
-  simp [resultOf, nodes_abs, env1, evalNodes, evalNode, argVal, CNode.ty?, SigMap.get, cmp]
+  simp [resultOf, nodes_abs, env1, evalNodes, evalUpTo, evalNode, argVal, CNode.ty?, SigMap.get, cmp]
   by_cases h : BitVec.slt x 0#32 = true <;> simp [h, alu]
 
 theorem sign_spec (x : I32) :
     resultOf nodes_sign (env1 "in_x" x) = if (0 : I32).slt x then 1 else if x.slt 0 then -1 else 0 := by
-  simp [resultOf, nodes_sign, env1, evalNodes, evalNode, argVal, CNode.ty?, SigMap.get, cmp]
+  simp [resultOf, nodes_sign, env1, evalNodes, evalUpTo, evalNode, argVal, CNode.ty?, SigMap.get, cmp]
   by_cases h1 : BitVec.slt 0#32 x = true <;> by_cases h2 : BitVec.slt x 0#32 = true <;> simp [h1, h2, alu]
   · exfalso
     simp [BitVec.slt] at h1 h2
     omega
 
 theorem min_spec (a b : I32) : resultOf nodes_min (env2 "in_a" a "in_b" b) = if b.slt a then b else a := by
-  simp [resultOf, nodes_min, env2, evalNodes, evalNode, argVal, CNode.ty?, SigMap.get, cmp]
+  simp [resultOf, nodes_min, env2, evalNodes, evalUpTo, evalNode, argVal, CNode.ty?, SigMap.get, cmp]
   by_cases h : BitVec.slt b a = true <;> simp [h, alu]
 
 theorem max_spec (a b : I32) : resultOf nodes_max (env2 "in_a" a "in_b" b) = if a.slt b then b else a := by
-  simp [resultOf, nodes_max, env2, evalNodes, evalNode, argVal, CNode.ty?, SigMap.get, cmp]
+  simp [resultOf, nodes_max, env2, evalNodes, evalUpTo, evalNode, argVal, CNode.ty?, SigMap.get, cmp]
   by_cases h : BitVec.slt a b = true <;> simp [h, alu]
 
 /-- clamp into `[low, high]` (requires `low ≤ high`, as documented) -/
 theorem clamp_spec (x lo hi : I32) (h : ¬ hi.slt lo) :
     resultOf nodes_clamp (env3 "in_x" x "in_low" lo "in_high" hi) =
       if x.slt lo then lo else if hi.slt x then hi else x := by
-  simp [resultOf, nodes_clamp, env3, evalNodes, evalNode, argVal, CNode.ty?, SigMap.get, cmp]
+  simp [resultOf, nodes_clamp, env3, evalNodes, evalUpTo, evalNode, argVal, CNode.ty?, SigMap.get, cmp]
   by_cases h1 : BitVec.slt x lo = true
   · have h2 : BitVec.slt hi lo = false := by simpa using h
     simp [h1, alu, h2]
@@ -69,31 +69,31 @@ theorem clamp_spec (x lo hi : I32) (h : ¬ hi.slt lo) :
 theorem between_spec (x lo hi : I32) :
     resultOf nodes_between (env3 "in_x" x "in_low" lo "in_high" hi) =
       boolI (!(x.slt lo) && !(hi.slt x)) := by
-  simp [resultOf, nodes_between, env3, evalNodes, evalNode, argVal, CNode.ty?, SigMap.get, cmp]
+  simp [resultOf, nodes_between, env3, evalNodes, evalUpTo, evalNode, argVal, CNode.ty?, SigMap.get, cmp]
   by_cases h1 : BitVec.slt x lo = true <;> by_cases h2 : BitVec.slt hi x = true <;> simp [h1, h2, boolI]
 
 theorem get_bit_spec (v p : I32) :
     resultOf nodes_get_bit (env2 "in_value" v "in_pos" p) = (v.sshiftRight (p.toNat % 32)) &&& 1 := by
-  simp [resultOf, nodes_get_bit, env2, evalNodes, evalNode, argVal, CNode.ty?, SigMap.get, alu, sshr32]
+  simp [resultOf, nodes_get_bit, env2, evalNodes, evalUpTo, evalNode, argVal, CNode.ty?, SigMap.get, alu, sshr32]
 
 theorem set_bit_spec (v p : I32) :
     resultOf nodes_set_bit (env2 "in_value" v "in_pos" p) = v ||| ((1 : I32) <<< (p.toNat % 32)) := by
-  simp [resultOf, nodes_set_bit, env2, evalNodes, evalNode, argVal, CNode.ty?, SigMap.get, alu, shl32]
+  simp [resultOf, nodes_set_bit, env2, evalNodes, evalUpTo, evalNode, argVal, CNode.ty?, SigMap.get, alu, shl32]
 
 theorem toggle_bit_spec (v p : I32) :
     resultOf nodes_toggle_bit (env2 "in_value" v "in_pos" p) = v ^^^ ((1 : I32) <<< (p.toNat % 32)) := by
-  simp [resultOf, nodes_toggle_bit, env2, evalNodes, evalNode, argVal, CNode.ty?, SigMap.get, alu, shl32]
+  simp [resultOf, nodes_toggle_bit, env2, evalNodes, evalUpTo, evalNode, argVal, CNode.ty?, SigMap.get, alu, shl32]
 
 theorem clear_bit_spec (v p : I32) :
     resultOf nodes_clear_bit (env2 "in_value" v "in_pos" p) = v &&& ~~~((1 : I32) <<< (p.toNat % 32)) := by
-  simp [resultOf, nodes_clear_bit, env2, evalNodes, evalNode, argVal, CNode.ty?, SigMap.get, alu, shl32]
+  simp [resultOf, nodes_clear_bit, env2, evalNodes, evalUpTo, evalNode, argVal, CNode.ty?, SigMap.get, alu, shl32]
   have h : (4294967295#32 : I32) = BitVec.allOnes 32 := by decide
   rw [h, BitVec.allOnes_xor]
 
 /-- lerp is literally its documented formula in wrap-around arithmetic -/
 theorem lerp_spec (a b t : I32) :
     resultOf nodes_lerp (env3 "in_a" a "in_b" b "in_t" t) = a + sdiv0 ((b - a) * t) 100 := by
-  simp [resultOf, nodes_lerp, env3, evalNodes, evalNode, argVal, CNode.ty?, SigMap.get, alu]
+  simp [resultOf, nodes_lerp, env3, evalNodes, evalUpTo, evalNode, argVal, CNode.ty?, SigMap.get, alu]
 
 /-- floor division, on the region where truncation already floors (partial: the sign-adjustment branch
 is exercised by the differential tie, not proved) -/
@@ -101,7 +101,7 @@ theorem div_floor_spec_partial (a b : I32) (ha : 0 ≤ a.toInt) (hb : 0 < b.toIn
     resultOf nodes_div_floor (env2 "in_a" a "in_b" b) = sdiv0 a b := by
   have ha' : BitVec.slt a 0#32 = false := by simp [BitVec.slt]; omega
   have hb' : BitVec.slt b 0#32 = false := by simp [BitVec.slt]; omega
-  simp [resultOf, nodes_div_floor, env2, evalNodes, evalNode, argVal, CNode.ty?, SigMap.get, alu, cmp, boolI]
+  simp [resultOf, nodes_div_floor, env2, evalNodes, evalUpTo, evalNode, argVal, CNode.ty?, SigMap.get, alu, cmp, boolI]
   simp [ha', hb']
 
 example : ¬ (BitVec.slt (10 : I32) (0 : I32)) := by decide
